@@ -155,5 +155,15 @@ class RevolvedRing(ExtrudedRing):
     def operations(self) -> List[Operation]:
         return self.revolves
 
+    @property
+    def grid(self) -> List[List[Operation]]:
+        """A single tier: the revolved segments in circumferential order"""
+        return [self.revolves]
+
+    @property
+    def core(self) -> List[Operation]:
+        """A ring has no core: all segments touch the outer surface"""
+        return []
+
     def chop_axial(self, **kwargs):
         self.operations[0].chop(self.axial_axis, **kwargs)
